@@ -64,6 +64,17 @@ def reader_path(prog, f) -> Optional[List[object]]:
     return None
 
 
+def class_identified_by_loader(chk: Check, rule: str = 'PROV-loader-precedence') -> None:
+    """save() writes the identifier the loader IN EFFECT for this save gives the class (not a remembered one).  Shared with C07."""
+    prog = chk.prog
+    sv = prog.func('persistence.Savable.save')
+    ci = [c for c in calls_in_func(sv, '_set_class_name')]
+    from ..rules import Resolver
+    ident_arg = Resolver(sv).expand(ci[0].args[1]) if len(ci) == 1 and len(ci[0].args) >= 2 else None
+    ok = isinstance(ident_arg, ast.Call) and norm(ident_arg.func) == 'loader.identify_object' and norm(ident_arg.args[0]) in ('self.__class__', 'type(self)')
+    chk.ob(rule, sv, ok, 'the class is identified by the loader in effect (custom if given, else default)', kind='class-identified-by-loader')
+
+
 def run(chk: Check) -> None:
     prog = chk.prog
     pe = prog.module('persistence')
@@ -199,6 +210,9 @@ def run(chk: Check) -> None:
     gets = [n for n in cfg.nodes if any(isinstance(c, ast.Call) and last_name(c) == 'get_custom_meta' for c in (walk_shallow(n.expr()) if n.expr() is not None else []))]
     ok = bool(gets) and all(('none', f'{eol.params[0]}.loader') in ff.at(g) for g in gets)
     chk.ob('PROV-loader-precedence', eol, ok, '2) otherwise the loader named in the saved state is looked up', kind='saved-second')
+    ok = bool(gets) and cfg.must_pass(cfg.entry, [cfg.exit], lambda m: m in gets or m in first)
+    chk.ob('PROV-loader-precedence', eol, ok, 'every way of returning a context either returns the given context that already carries a loader, or has consulted the saved state '
+           'first (a shortcut -- no context given, say -- that goes straight to the default ignores the loader the state was saved with)', kind='saved-state-always-consulted')
     key_ok = any(isinstance(c, ast.Call) and last_name(c) == 'get_custom_meta' and len(c.args) == 2 and norm(c.args[0]) == eol.params[1] and prog.fold(eol.module, c.args[1]) == 'object_loader'
                  for g in gets for c in walk_shallow(g.expr()))
     chk.ob('PROV-loader-precedence', eol, key_ok, 'the lookup uses the object-loader meta key of the given saved state', kind='saved-key')
@@ -235,11 +249,7 @@ def run(chk: Check) -> None:
                f'save() records {"the loader\'s class" if records_class else "the loader object"} ({ident}); what load puts into the context must be '
                f'{"an instance: the loaded class called" if records_class else "that object itself"} -- its consumers call load_object()/identify_object() on it '
                f'(found: {norm(val)})', node=uses[0], kind='class-vs-instance')
-    ci = [c for c in calls_in_func(sv, '_set_class_name')]
-    from ..rules import Resolver
-    ident_arg = Resolver(sv).expand(ci[0].args[1]) if len(ci) == 1 and len(ci[0].args) >= 2 else None
-    ok = isinstance(ident_arg, ast.Call) and norm(ident_arg.func) == 'loader.identify_object' and norm(ident_arg.args[0]) in ('self.__class__', 'type(self)')
-    chk.ob('PROV-loader-precedence', sv, ok, 'the class is identified by the loader in effect (custom if given, else default)', kind='class-identified-by-loader')
+    class_identified_by_loader(chk)
     ld = prog.func('persistence.Savable.load')
     lo = [c for c in calls_in_func(ld, 'load_object')]
     ok = len(lo) == 1 and norm(lo[0].func) == 'load_context.loader.load_object' and any(last_name(c) == '_ensure_object_loader' for c in calls_in_func(ld))
